@@ -1401,6 +1401,10 @@ class ReadOnlyMonitor(Monitor):
         out = []
         ops = self.operations(sess)
         names = self.rng.sample(sorted(ops), min(k, len(ops)))
+        off = [x for x, (_, on) in t.annotators.all_features.items() if not on]
+        if off and "queries/deprecated" in ops and "queries/deprecated" not in names \
+                and self.rng.random() < 0.5:
+            names.append("queries/deprecated")  # getters of features that are switched off
         cfgtag = (f"scale={'none' if t.scale is None else 'given'}/"
                   f"pos={'axes' if isinstance(t.features.position_key, list) else 'single'}/"
                   f"{'seg' if t.segmentation is not None else 'noseg'}")
